@@ -49,9 +49,29 @@ pub fn make_scenario(prop: &str, run_seed: u64, thorough: bool) -> Scenario {
         generate::RACE.with(|c| c.set(on));
     }
     let race_on = generate::RACE.with(std::cell::Cell::get);
+    // CPU affinity of the run, from a stream of its own
+    let cpus = {
+        let mut cr = root.split(label("cpus"));
+        match prop {
+            "C01" | "C02" | "C03" | "C05" | "C07" => match cr.below(8) {
+                0 | 1 => Some(1),
+                2 => Some(2),
+                _ => None,
+            },
+            _ => None,
+        }
+    };
+    let wide = {
+        let mut wr = root.split(label("wide"));
+        matches!(prop, "C01" | "C03" | "C02" | "C07") && wr.chance(1, 10)
+    };
     match prop {
         "C01" | "C03" => {
-            let (program, ops) = if w.chance(3, 10) {
+            let (program, ops) = if wide {
+                let p = generate::gen_program_wide(&mut w);
+                let o = generate::gen_history_wide(&mut w, &p);
+                (p, o)
+            } else if w.chance(3, 10) {
                 let p = generate::gen_program_tfc(&mut w);
                 let o = generate::gen_history_tfc(&mut w, &p);
                 (p, o)
@@ -94,12 +114,15 @@ pub fn make_scenario(prop: &str, run_seed: u64, thorough: bool) -> Scenario {
                     crash_check: false,
                     sched_seed: run_seed,
                     no_values: false,
+                    cpus,
                 },
             }
         }
         "C02" => {
-            let fanin = w.chance(1, 4);
-            let program = if fanin {
+            let fanin = !wide && w.chance(1, 4);
+            let program = if wide {
+                generate::gen_program_wide(&mut w)
+            } else if fanin {
                 let k = if thorough && w.chance(1, 10) { w.range(1025, 1040) } else { w.range(33, 40) };
                 generate::gen_fanin_program(&mut w, k as u32)
             } else {
@@ -132,6 +155,7 @@ pub fn make_scenario(prop: &str, run_seed: u64, thorough: bool) -> Scenario {
                     crash_check: false,
                     sched_seed: run_seed,
                     no_values: false,
+                    cpus,
                 },
             }
         }
@@ -167,6 +191,7 @@ pub fn make_scenario(prop: &str, run_seed: u64, thorough: bool) -> Scenario {
                     crash_check: false,
                     sched_seed: run_seed,
                     no_values: false,
+                    cpus,
                 },
             }
         }
@@ -213,6 +238,7 @@ pub fn make_scenario(prop: &str, run_seed: u64, thorough: bool) -> Scenario {
                     crash_check: false,
                     sched_seed: run_seed,
                     no_values: conc_free,
+                    cpus,
                 },
             }
         }
@@ -237,6 +263,7 @@ pub fn make_scenario(prop: &str, run_seed: u64, thorough: bool) -> Scenario {
                     crash_check: false,
                     sched_seed: run_seed,
                     no_values: false,
+                    cpus,
                 },
             }
         }
@@ -274,6 +301,7 @@ pub fn make_scenario(prop: &str, run_seed: u64, thorough: bool) -> Scenario {
                     crash_check: prop == "C08",
                     sched_seed: run_seed,
                     no_values: false,
+                    cpus,
                 },
             }
         }
